@@ -147,13 +147,16 @@ class C05(core.Check):
             holder = {}
 
             def observer(strategy, hook, order=None):
-                if hook != 'before' or problems:
+                if hook not in ('before', 'after', 'on_close_position', 'on_open_position') or problems:
                     return
                 tr = holder['tr']
                 key = f'{strategy.exchange}-{strategy.symbol}'
                 reg = [tr.ordinals.get(id(o)) for o in store.orders.active_storage.get(key, []) if o.is_active]
                 want = [k for k, o in enumerate(tr.orders) if o.symbol == strategy.symbol and o.status == 'ACTIVE']
-                if sorted(x for x in reg if x is not None) != want or None in reg:
+                # at a strategy step the registry is exactly the active orders; inside fill hooks it may lag behind for
+                # orders that just became final, but an ACTIVE order is never missing from it
+                regs = sorted(x for x in reg if x is not None)
+                if (hook == 'before' and regs != want) or None in reg or any(k not in regs for k in want):
                     problems.append(('active-registry', strategy.index, reg, want))
             classes = [('BTC-USDT', tf, engine.make_strategy(script, observer))]
             tr = engine.Tracer()
